@@ -143,7 +143,11 @@ Pads == {[case |-> c, pad |-> pad] : c \in PadBase, pad \in 1..3}
    of a received PUBLISH and replaces keep-alive / client identifier of a received CONNECT - can be changed through
    its setters and encoded again.  What Encode writes then is the wire form of the NEW field values.
    from: the case whose wire form is decoded; to: the case whose fields are then set (only the setters of fields that
-   differ are called); auto: the packet identifier is not set by the caller but left to the library (QoS 0 -> 1/2). *)
+   differ are called); auto: the packet identifier is not set by the caller but left to the library (QoS 0 -> 1/2).
+   The same pairs carry two more obligations about messages as objects: (reuse) Decode of `to`'s wire form into the object
+   that holds the decoded `from` leaves exactly `to`'s fields - a message object may be used for more than one packet;
+   (clone) a clone of `from`, then a clone of `to`, then changes to the original: both clones keep their fields and encode
+   to the wire forms of the messages they were cloned from - clones share nothing with each other or the original.   *)
 SmallPub == {[ty |-> "PUBLISH", dup |-> d, q |-> q, r |-> r, tl |-> tl, id |-> id, pl |-> pl] :
                d \in 0..1, q \in 0..2, r \in 0..1, tl \in {1, 2}, id \in {1, 258}, pl \in {0, 3}}
 SmallConn == {[ty |-> "CONNECT", ver |-> ver, clean |-> cl, will |-> w.will, wq |-> w.wq, wr |-> w.wr, wtl |-> w.wtl, wml |-> w.wml,
